@@ -101,18 +101,65 @@ Proof.
   - sym Ho. rewrite Hp. sym Ho. reflexivity.
 Qed.
 
-(* Documentable.isVisible *)
+(* ---- the iterative spelling: a search loop over the chain of containers *)
+Lemma for_loop_search : forall (step : ival -> env -> sres) (P : ival -> bool) (a : ival) l en,
+  (forall v en0, In v l -> (P v = true /\ step v en0 = SRet a) \/ (P v = false /\ exists en1, step v en0 = SNorm en1)) ->
+  (existsb P l = true /\ for_loop step l en = SRet a) \/ (existsb P l = false /\ exists en1, for_loop step l en = SNorm en1).
+Proof.
+  intros step P a l. induction l as [|v l IH]; intros en H.
+  - right. split; [reflexivity|]. exists en. reflexivity.
+  - cbn [for_loop existsb]. destruct (H v en (or_introl eq_refl)) as [[Hp Hs]|[Hp [en1 Hs]]]; rewrite Hs, Hp.
+    + left. split; reflexivity.
+    + cbn [orb]. apply IH. intros w en0 Hw. apply H. now right.
+Qed.
+
+Lemma chain_up_valid : forall fuel i x, valid r i -> In x (chain_up fuel r i) -> valid r x.
+Proof.
+  induction fuel as [|n IH]; intros i x Hv Hin; [contradiction|]. cbn [chain_up] in Hin. destruct Hin as [E|Hin]; [now subst x|].
+  destruct (parent_of r i) as [p|] eqn:Hp; [|contradiction].
+  apply (IH p x); [|exact Hin]. pose proof (wf_parent_lt r Hwf i p Hp). unfold valid in *. lia.
+Qed.
+
+Lemma chain_hidden : forall fuel i, i < fuel -> valid r i ->
+  existsb (fun a => is_hidden (priv_of r a)) (chain_up fuel r i) = negb (visible r i).
+Proof.
+  induction fuel as [|n IH]; intros i Hi Hv; [lia|]. destruct (valid_get r i Hv) as [o Ho].
+  cbn [chain_up existsb]. rewrite (visible_unfold r i o Hwf Ho). rewrite (priv_of_get r i o Ho). rewrite (parent_of_get r i o Ho).
+  destruct (is_hidden (eff_priv o)); [reflexivity|]. cbn [orb]. destruct (o_parent o) as [p|] eqn:Hp; [|reflexivity].
+  destruct (parent_lt i o p Ho Hp) as [Hlt Hvp]. exact (IH p ltac:(lia) Hvp).
+Qed.
+
+Lemma existsb_map : forall {X Y} (f : X -> Y) (P : Y -> bool) l, existsb P (map f l) = existsb (fun x => P (f x)) l.
+Proof. intros X Y f P l. induction l as [|x l IH]; [reflexivity|]. cbn. now rewrite IH. Qed.
+
+(* Documentable.isVisible: recursion on the parent's property, or a search loop over the chain of containers *)
 Theorem code_is_visible : forall fuel i, i + 3 < fuel -> valid r i ->
   run' fuel FIsVisible i env0 = Val (VBool (visible r i)).
 Proof.
   induction fuel as [|n IH]; intros i Hi Hv; [lia|]. destruct (valid_get r i Hv) as [o Ho].
-  rewrite (visible_unfold r i o Hwf Ho).
-  pose proof (code_privacy n i o ltac:(lia) Ho) as Hpriv.
-  destruct (o_parent o) as [p|] eqn:Hp.
-  - destruct (parent_lt i o p Ho Hp) as [Hlt Hvp]. pose proof (IH p ltac:(lia) Hvp) as Hpar.
-    destruct (eff_priv o) eqn:He; repeat (sym Ho; rewrite ?Hpriv, ?Hp, ?Hpar); try reflexivity;
-      destruct (visible r p); reflexivity.
-  - destruct (eff_priv o) eqn:He; repeat (sym Ho; rewrite ?Hpriv, ?Hp); reflexivity.
+  first
+  [ (* recursive spelling *)
+    rewrite (visible_unfold r i o Hwf Ho);
+    pose proof (code_privacy n i o ltac:(lia) Ho) as Hpriv;
+    destruct (o_parent o) as [p|] eqn:Hp;
+    [ destruct (parent_lt i o p Ho Hp) as [Hlt Hvp]; pose proof (IH p ltac:(lia) Hvp) as Hpar;
+      destruct (eff_priv o) eqn:He; repeat (sym Ho; rewrite ?Hpriv, ?Hp, ?Hpar); try reflexivity;
+        destruct (visible r p); reflexivity
+    | destruct (eff_priv o) eqn:He; repeat (sym Ho; rewrite ?Hpriv, ?Hp); reflexivity ]
+  | (* iterative spelling *)
+    sym Ho;
+    match goal with |- context [for_loop ?st (map VObj (chain_up ?fu r i)) ?en] =>
+      destruct (for_loop_search st (fun v => match v with VObj x => is_hidden (priv_of r x) | _ => false end) (VBool false)
+                                (map VObj (chain_up fu r i)) en) as [[Hex Hr]|[Hex [en1 Hr]]];
+      [ intros v en0 Hin; apply in_map_iff in Hin; destruct Hin as [x [E Hx]]; subst v;
+        pose proof (chain_up_valid fu i x Hv Hx) as Hvx; destruct (valid_get r x Hvx) as [ox Hox];
+        pose proof (code_privacy n x ox ltac:(lia) Hox) as Hpx; rewrite (priv_of_get r x ox Hox);
+        cbn beta iota; rewrite Hpx; destruct (eff_priv ox); cbn;
+        first [ left; split; reflexivity | right; split; [reflexivity|eexists; reflexivity] ]
+      | | ];
+      rewrite Hr; rewrite existsb_map in Hex; rewrite (chain_hidden fu i ltac:(unfold fuel_of; pose proof Hv; unfold valid in *; lia) Hv) in Hex;
+      cbn; destruct (visible r i); try discriminate Hex; reflexivity
+    end ].
 Qed.
 
 (* Documentable.isPrivate *)
